@@ -27,8 +27,12 @@ TEMPLATES = {
     "droplic": ("droplic.jinja2", "{% for copyright_line in copyright_lines %}\n{{ copyright_line }}\n{% endfor %}\nLicensed somehow.\n"),
     "dropcop": ("dropcop.jinja2", "{% for expression in spdx_expressions %}\nSPDX-License-Identifier: {{ expression }}\n{% endfor %}\n"),
     "dropboth": ("dropboth.jinja2", "Nothing to see here.\n"),
+    # the same, pre-commented
+    "cdroplic": ("cdroplic.commented.jinja2", "{% for copyright_line in copyright_lines %}\n# {{ copyright_line }}\n{% endfor %}\n# Licensed somehow.\n"),
+    "cdropcop": ("cdropcop.commented.jinja2", "{% for expression in spdx_expressions %}\n# SPDX-License-Identifier: {{ expression }}\n{% endfor %}\n"),
+    "cdropboth": ("cdropboth.commented.jinja2", "# Nothing to see here.\n"),
 }
-DROPPING = {"droplic", "dropcop", "dropboth"}
+DROPPING = {"droplic", "dropcop", "dropboth", "cdroplic", "cdropcop", "cdropboth"}
 
 
 def commented_template(style: str) -> str:
